@@ -261,7 +261,7 @@ def minimise(mod, viol: dict, known, budget_s: float = 45.0, max_exec: int = 300
 
 
 def write_replay(mod, tier, viol, extra=None) -> str:
-    d = os.path.join(VERIF, "replays")
+    d = os.environ.get("VERIF_REPLAY_DIR") or os.path.join(VERIF, "replays")
     os.makedirs(d, exist_ok=True)
     key = hashlib.sha1((viol["violation"]["invariant"] + viol["violation"]["key"]).encode()).hexdigest()[:10]
     path = os.path.join(d, f"{mod.PROP}-{key}.json")
@@ -457,8 +457,9 @@ def check(mod_name: str, tier: str, seed: int, budget: float | None = None) -> i
 
 
 def write_evidence(mod, tier, seed, tot, wall, violation, known):
-    os.makedirs(os.path.join(VERIF, "evidence"), exist_ok=True)
-    path = os.path.join(VERIF, "evidence", f"{mod.PROP}.json")
+    edir = os.environ.get("VERIF_EVIDENCE_DIR") or os.path.join(VERIF, "evidence")
+    os.makedirs(edir, exist_ok=True)
+    path = os.path.join(edir, f"{mod.PROP}.json")
     rule = mod.RULE
     cov = {
         "evaluations": tot["runs"],
